@@ -368,7 +368,7 @@ def run(ctx):
         if ctx.thorough():
             ctx.leanchecker(PROP_MODS)
     for phase in (corr_substitute, lambda c: corr_pipeline(c, g), lambda c: validate_traces(c, g), lambda c: run_edges(c, g),
-                  random_polys, pointwise_maps):
+                  lambda c: option_history(c, g), random_polys, pointwise_maps):
         ctx.guard(getattr(phase, "__name__", "g-phase"), phase, ctx)
         ctx.log("phase done: %s" % getattr(phase, "__name__", "g-phase"))
     ctx.rule = ("substitution correspondence: seeded sparse Gaussian-integer 6x6 matrices x integer/Gaussian polynomials of degree <= 4 "
@@ -906,6 +906,51 @@ def _rand_point(rng, complex_=True, r=0.4):
     if complex_:
         return np.array([complex(rng.uniform(-r, r), rng.uniform(-r, r)) for _ in range(6)])
     return np.array([complex(rng.uniform(-r, r), 0.0) for _ in range(6)])
+
+
+def option_history(ctx, g):
+    """A conversion called once with an explicit option must not change what later default calls of the same edge do: the
+    registry's per-edge defaults are shared state of the session.  For every edge that registers a default `tol`, on one pipeline:
+    default call, call with tol=1e-2, default call again -> the two default results are bitwise equal and the registered defaults
+    are what they were."""
+    import copy
+    from hiten.algorithms.types.services import get_hamiltonian_services
+    reg = get_hamiltonian_services()
+    items = g["items"]
+    for sysname, idx, deg in (("earth-moon", 1, 5), ("earth-moon", 4, 4)):
+        pipe = pipeline(sysname, idx, deg)
+        point = pipe.point
+        where = {"system": sysname, "point": "L%d" % idx, "degree": deg}
+        for (s, d), (fn, ctxl, dflt) in items:
+            if "tol" not in (dflt or {}):
+                continue
+            ekey = "%s->%s" % (s, d)
+            before = copy.deepcopy({k: v[2] for k, v in reg._CONVERSION_REGISTRY.items()})
+            try:
+                src = pipe.get_hamiltonian(s)
+                first = src.to_state(d, point=point)
+                loose = src.to_state(d, point=point, tol=1e-2)
+                again = src.to_state(d, point=point)
+            except Exception as ex:
+                continue   # executability is reported by run_edges
+            first, loose, again = [(r[0] if isinstance(r, tuple) else r) for r in (first, loose, again)]
+            after = {k: v[2] for k, v in reg._CONVERSION_REGISTRY.items()}
+            dev = poly_diff(again.poly_H, first.poly_H)
+            ctx.case(("option-history", sysname, idx, deg, ekey), nontrivial=poly_diff(loose.poly_H, first.poly_H) > 0, kind="option-history")
+            if dev > 0 or after != before:
+                changed = sorted("%s->%s" % k for k in before if before[k] != after.get(k))
+                _viol(ctx, "option-history:" + ekey,
+                      "after one call of %s with tol=1e-2 the same call without options returns a different polynomial (max coefficient change %g); "
+                      "registered defaults changed for %s" % (ekey, dev, changed or "no edge"),
+                      dict(where, edge=[s, d], history=["to_state(%r, point=point)" % d, "to_state(%r, point=point, tol=1e-2)" % d, "to_state(%r, point=point)" % d],
+                           max_coefficient_change=dev, defaults_before={("%s->%s" % k): repr(v) for k, v in before.items() if before[k] != after.get(k)},
+                           defaults_after={("%s->%s" % k): repr(after.get(k)) for k in before if before[k] != after.get(k)}))
+                # restore the session's defaults so that the remaining phases examine the code, not this history
+                for k, v in before.items():
+                    if k in reg._CONVERSION_REGISTRY:
+                        e = reg._CONVERSION_REGISTRY[k]
+                        e[2].clear()
+                        e[2].update(v)
 
 
 def run_edges(ctx, g, plan=None):
